@@ -16,8 +16,7 @@ for p in sorted(root.rglob("*.py")):
     for qual, fn in walk_functions(tree):
         allf.append(qual)
         h, names = alpha_hash(fn)
-        if names:
-            d[qual] = {"hash": h, "locals": names}
+        d[qual] = {"hash": h, "locals": names}
     d["__functions__"] = sorted(allf)
     out[rel] = d
 REF_PATH.write_text(json.dumps(out, indent=0, sort_keys=True))
